@@ -506,6 +506,13 @@ def run(prog: Program, res: Result, tier: str) -> None:
         raise AnalysisError(f"only {nsites} delay consumer sites found (9 confirmed by hand; two conditional call sites may be written as one)")
 
 
+def _ancestors(n: ast.AST):
+    p_ = parent(n)
+    while p_ is not None:
+        yield p_
+        p_ = parent(p_)
+
+
 def _valid_width(prog: Program, res: Result) -> None:
     """Width of each assigned row == declared width of the result, in dmt_block_valid."""
     env = lambda names=None: PolyEnv(names or {}, atom_hook=transparent_casts)  # noqa: E731
@@ -566,6 +573,19 @@ def _valid_width(prog: Program, res: Result) -> None:
             same = width is not None and width == declared
             width_txt = width.canon() if width is not None else "?"
             decl_txt = declared.canon()
+            # one time origin for all rows: column 0 of every DM row is input sample (max positive shift over ALL DMs),
+            # read at that sample plus this channel's shift - a per-row origin slides the rows against each other and
+            # against the tstart the caller records
+            origin = env().poly(ast.parse("max(0, np.max(dm_delays))", mode="eval").body)
+            loops_ = [p_ for p_ in _ancestors(st) if isinstance(p_, ast.For)]
+            idx_ = [norm(l_.target) for l_ in reversed(loops_)]
+            if len(idx_) == 2:
+                this_shift = env().poly(ast.parse(f"dm_delays[{idx_[0]}, {idx_[1]}]", mode="eval").body)
+                alt_shift = env().poly(ast.parse(f"dm_delays[{idx_[0]}][{idx_[1]}]", mode="eval").body)
+                ok_origin = (lo + this_shift == origin) or (lo + alt_shift == origin)
+                (res.ok if ok_origin else res.bad)("R4", dv, st, "every row starts at input column (max positive shift over all DMs) - (this channel's shift): one time origin" if ok_origin else
+                                                   f"the slice of row [{', '.join(idx_)}] starts at `{lo.canon()[:120]}`, not at max(0, max over ALL delays) - dm_delays[{idx_[0]}, {idx_[1]}]: "
+                                                   "the DM rows no longer share one time origin", key="dmt_block_valid:origin")
         else:
             res.bad("R4", dv, st, "cannot determine the width of the row assigned", key=key)
             continue
@@ -633,6 +653,10 @@ MUTANTS = [
      "old": "if ref_freq not in {\"max\", \"min\", \"center\", \"ch1\"}:", "new": "if ref_freq not in {\"max\", \"min\", \"centre\", \"ch1\"}:"},
     {"id": "c09-dmt-kernel-negates", "file": K, "expect": "C09.R3",
      "old": "        res[idm] = np.sum(roll_block(arr, dm_delays[idm]), axis=0)", "new": "        res[idm] = np.sum(roll_block(arr, -dm_delays[idm]), axis=0)"},
+]
+MUTANTS += [
+    {"id": "c09-dmt-valid-per-row-origin", "file": "sigpyproc/core/kernels.py", "expect": "C09.R4",
+     "old": "            res[idm] += arr[irow, max_pos_shift - shift : end_col - shift]", "new": "            row_origin = max(0, np.max(dm_delays[idm]))\n            res[idm] += arr[irow, row_origin - shift : row_origin - shift + valid_samples]"},
 ]
 TWINS = [
     {"id": "c09-twin-neg-var", "file": BL,
